@@ -516,3 +516,319 @@ def check_inspect(ctx, rid, repo):
             n_ok += 1
             ctx.holds(rid, f"{f.relpath}::{label}", f"{len(rows)} printed rows" + (" and the JSON document" if out_file else "") + " carry the workspace's channels, samples, parameters with all their modifier types, measurements")
     return n_ok
+
+
+# ----------------------------------------------------------------------------------------------------------------
+def check_workspace_commands(ctx, rid, repo):
+    """prune, rename, combine, sort, digest (cli/spec.py) and extract, apply, verify (cli/patchset.py) walked end to end with
+    files as symbolic documents and recording Workspace / PatchSet objects: the library operation the command is named
+    after is called once, on the workspace(s) built from the file(s) given, with every option value in the parameter the
+    library documents for it, and what is printed / written is that call's result."""
+    n_ok = 0
+    errs = (Undecided, KeyError, TypeError, ValueError, IndexError, AttributeError)
+
+    def doc(path):
+        return {"__document__": path}
+
+    def run(fn_rel, cname, options, out_key="output_file"):
+        f = repo.module(CLI + fn_rel).funcs.get(cname)
+        if f is None:
+            return None, None, f"command function {cname} not found"
+        ctx.touch(f)
+        rec = {"calls": [], "echo": [], "dumped": [], "workspaces": []}
+
+        def workspace(a, k):
+            o = Obj("workspace", {"spec": a[0] if a else k.get("spec")}, closed=True)
+            rec["workspaces"].append(o)
+            return o
+
+        def method(name):
+            def m(recv, a, k):
+                if isinstance(recv, Obj) and recv.name in ("workspace", "patchset"):
+                    rec["calls"].append((name, recv, list(a), dict(k)))
+                    return Obj(f"RESULT_OF_{name}", {}, closed=True)
+                raise NotHandled()
+            return m
+
+        def classcall(name):
+            def m(a, k):
+                if a and isinstance(a[0], Obj) and a[0].name == "workspace":
+                    rec["calls"].append((name, None, list(a), dict(k)))
+                    return Obj(f"RESULT_OF_{name}", {}, closed=True)
+                raise NotHandled()
+            return m
+
+        def digest(a, k):
+            alg = k.get("algorithm", a[1] if len(a) > 1 else "sha256")
+            rec["calls"].append(("digest", None, list(a[:1]), {"algorithm": alg}))
+            return f"DIGEST<{alg}>"
+
+        def patchset(a, k):
+            return Obj("patchset", {"spec": a[0], "metadata": {"description": "PSET_DESCRIPTION", "labels": ["x"]}, "patches": [Obj("patch", {"name": "p_one"}), Obj("patch", {"name": "p_two"})]}, closed=True)
+
+        def getitem(base, idx):
+            if isinstance(base, Obj) and base.name == "patchset":
+                rec["calls"].append(("getitem", base, [idx], {}))
+                return Obj("patch", {"name": idx, "metadata": {"name": idx, "values": ["V"]}, "patch": [{"op": "add", "path": f"/of/{idx}"}]}, closed=True)
+            raise NotHandled()
+
+        def dumps(a, k):
+            return Obj("json_text", {"of": _canon(a[0]), "options": _canon(dict(k))}, closed=True)
+
+        ext = {"__strict__": True, "open_file": lambda a, k: Obj("stream", {"path": a[0]}, closed=True), "load": lambda a, k: doc(a[0].attrs["path"]),
+               "open": lambda a, k: Obj("outfile", {"path": a[0], "mode": a[1] if len(a) > 1 else "r"}, closed=True),
+               "Workspace": workspace, "PatchSet": patchset, ".prune": method("prune"), ".rename": method("rename"), ".apply": method("apply"), ".verify": method("verify"),
+               "combine": classcall("combine"), "sorted": classcall("sorted"), "digest": digest, "__getitem__": getitem,
+               "dumps": dumps, "dump": lambda a, k: rec["dumped"].append((_canon(a[0]), a[1] if len(a) > 1 else None)), "echo": lambda a, k: rec["echo"].append(a[0] if a else ""), "secho": lambda a, k: rec["echo"].append(a[0] if a else "")}
+        w = World(ext, module_env={"click": Obj("click"), "json": Obj("json"), "log": Obj("log"), "utils": Obj("utils")})
+        world_getitem = w.externals()["__getitem__"]
+
+        def any_getitem(base, idx):
+            try:
+                return getitem(base, idx)
+            except NotHandled:
+                return world_getitem(base, idx)
+
+        w.externals()["__getitem__"] = any_getitem
+        params = A.params_of(f.node)
+        table = option_table(f.node)
+        env = {p: (() if table.get(p, {}).get("multiple") else table.get(p, {}).get("default")) for p in params}
+        env.update(options)
+        try:
+            w.call_func(f, [], env)
+        except RaisedInFragment as e:
+            return f, rec, f"the command raises {e.exc_name}"
+        except errs as e:
+            return f, None, f"not interpretable: {type(e).__name__}: {e}"
+        return f, rec, None
+
+    def output_ok(rec, out_file, want):
+        wtxt = _canon(want)
+        if out_file is None:
+            texts = [e.attrs["of"] for e in rec["echo"] if isinstance(e, Obj) and e.name == "json_text"]
+            return (texts == [wtxt] and not rec["dumped"]), f"printed {texts or [x[0] for x in rec['dumped']]}"
+        ok = len(rec["dumped"]) == 1 and rec["dumped"][0][0] == wtxt and isinstance(rec["dumped"][0][1], Obj) and rec["dumped"][0][1].attrs.get("path") == out_file
+        return ok, f"written {[x[0] for x in rec['dumped']]}"
+
+    def ws_of(o):
+        return o.attrs.get("spec") if isinstance(o, Obj) and o.name == "workspace" else None
+
+    plans = []
+    pairs = (("a", "A2"), ("b", "B2"))
+    for out_file in (None, "out.json"):
+        plans.append(("spec.py", "prune", {"workspace": "ws.json", "output_file": out_file, "channel": ("c1", "c2"), "sample": ("s1",), "modifier": ("m1", "m2"), "modifier_type": ("histosys",), "measurement": ("meas1",)},
+                      lambda rec: [c for c in rec["calls"] if c[0] == "prune"],
+                      lambda c: ws_of(c[1]) == doc("ws.json") and not c[2] and {k_: tuple(v_) if isinstance(v_, (list, tuple)) else v_ for k_, v_ in c[3].items()} == {"channels": ("c1", "c2"), "samples": ("s1",), "modifiers": ("m1", "m2"), "modifier_types": ("histosys",), "measurements": ("meas1",)},
+                      "RESULT_OF_prune", out_file, "Workspace(<WORKSPACE file>).prune(channels=-c, samples=-s, modifiers=-m, modifier_types=-t, measurements=--measurement)"))
+        plans.append(("spec.py", "rename", {"workspace": "ws.json", "output_file": out_file, "channel": pairs, "sample": (("s", "S2"),), "modifier": (("m", "M2"),), "measurement": (("x", "X2"),)},
+                      lambda rec: [c for c in rec["calls"] if c[0] == "rename"],
+                      lambda c: ws_of(c[1]) == doc("ws.json") and not c[2] and {k_: dict(v_) for k_, v_ in c[3].items()} == {"channels": dict(pairs), "samples": {"s": "S2"}, "modifiers": {"m": "M2"}, "measurements": {"x": "X2"}},
+                      "RESULT_OF_rename", out_file, "Workspace(<WORKSPACE file>).rename(channels=dict(-c), samples=dict(-s), modifiers=dict(-m), measurements=dict(--measurement))"))
+        for join, merge in (("left outer", True), ("none", False)):
+            plans.append(("spec.py", "combine", {"workspace_one": "one.json", "workspace_two": "two.json", "output_file": out_file, "join": join, "merge_channels": merge},
+                          lambda rec: [c for c in rec["calls"] if c[0] == "combine"],
+                          lambda c, join=join, merge=merge: [ws_of(x) for x in c[2][:2]] == [doc("one.json"), doc("two.json")] and (c[3].get("join", c[2][2] if len(c[2]) > 2 else "none") == join) and (c[3].get("merge_channels", c[2][3] if len(c[2]) > 3 else False) is merge),
+                          "RESULT_OF_combine", out_file, "Workspace.combine(Workspace(<first file>), Workspace(<second file>), join=--join, merge_channels=--merge-channels)"))
+        plans.append(("spec.py", "sort", {"workspace": "ws.json", "output_file": out_file},
+                      lambda rec: [c for c in rec["calls"] if c[0] == "sorted"], lambda c: [ws_of(x) for x in c[2]] == [doc("ws.json")], "RESULT_OF_sorted", out_file, "Workspace.sorted(Workspace(<WORKSPACE file>))"))
+        plans.append(("patchset.py", "apply", {"background_only": "bkg.json", "patchset": "pset.json", "name": "p_two", "output_file": out_file},
+                      lambda rec: [c for c in rec["calls"] if c[0] == "apply"],
+                      lambda c: isinstance(c[1], Obj) and c[1].attrs.get("spec") == doc("pset.json") and ws_of(c[2][0] if c[2] else c[3].get("spec")) == doc("bkg.json") and (c[2][1] if len(c[2]) > 1 else c[3].get("key")) == "p_two",
+                      "RESULT_OF_apply", out_file, "PatchSet(<PATCHSET file>).apply(Workspace(<BACKGROUND-ONLY file>), --name)"))
+    for fn_rel, cname, options, pick, good, result_name, out_file, want_txt in plans:
+        label = f"pyhf {'patchset ' if fn_rel == 'patchset.py' else ''}{cname}" + (" --output-file" if out_file else "") + (f" --join '{options['join']}'" + (" --merge-channels" if options["merge_channels"] else "") if cname == "combine" else "")
+        f, rec, err = run(fn_rel, cname, options)
+        if f is None:
+            ctx.unrecognised(rid, repo.module(CLI + fn_rel), cname, err)
+            continue
+        if rec is None:
+            ctx.unrecognised(rid, f, label, err)
+            continue
+        if err:
+            ctx.violated(rid, f, label, err, expected=want_txt, node=f.node)
+            continue
+        calls = pick(rec)
+        if len(calls) != 1 or not good(calls[0]):
+            ctx.violated(rid, f, f"{label}: library call", f"`{label}` does not make the library call its options describe", expected=want_txt, found=str([(c[0], [_canon(ws_of(x)) if ws_of(x) is not None else _canon(x) for x in c[2]], {k_: _canon(v_) for k_, v_ in c[3].items()}) for c in calls])[:300], node=f.node)
+            continue
+        ok, found = output_ok(rec, out_file, Obj(result_name))
+        if not ok:
+            ctx.violated(rid, f, f"{label}: output", f"`{label}` does not emit the result of the library call as JSON on the requested channel", expected=f"<{result_name}>", found=found[:200], node=f.node)
+            continue
+        n_ok += 1
+        ctx.holds(rid, f"{CLI}{fn_rel}::{label}", want_txt)
+    # ---- digest: one library call per algorithm, in order; both output forms
+    for as_json in (True, False):
+        label = f"pyhf digest -a md5 -a sha256 {'--json' if as_json else '--plaintext'}"
+        f, rec, err = run("spec.py", "digest", {"workspace": "ws.json", "algorithm": ("md5", "sha256"), "output_json": as_json})
+        if f is None or rec is None:
+            ctx.unrecognised(rid, f or repo.module(CLI + "spec.py"), label, err or "?")
+            continue
+        calls = [c for c in rec["calls"] if c[0] == "digest"]
+        algs = [c[3]["algorithm"] for c in calls]
+        if err or algs != ["md5", "sha256"] or any(ws_of(c[2][0]) != doc("ws.json") for c in calls):
+            ctx.violated(rid, f, label, err or f"the digest is computed for algorithms {algs} (asked: md5, sha256) or not of the workspace in the file", expected="utils.digest(Workspace(<file>), algorithm=a) for each -a", node=f.node)
+            continue
+        if as_json:
+            texts = [e.attrs["of"] for e in rec["echo"] if isinstance(e, Obj) and e.name == "json_text"]
+            good_out = texts == [_canon({"md5": "DIGEST<md5>", "sha256": "DIGEST<sha256>"})]
+        else:
+            lines = [ln for e in rec["echo"] if isinstance(e, str) for ln in e.split("\n")]
+            good_out = lines == ["md5:DIGEST<md5>", "sha256:DIGEST<sha256>"]
+        if good_out:
+            n_ok += 1
+            ctx.holds(rid, f"{CLI}spec.py::{label}", "one digest per algorithm, emitted under its own name")
+        else:
+            ctx.violated(rid, f, f"{label}: output", "the digests printed are not the library's, each under the algorithm it was computed with", found=str(rec["echo"])[:200], node=f.node)
+    # ---- patchset extract / verify
+    for with_md in (False, True):
+        for out_file in (None, "p.json"):
+            label = f"pyhf patchset extract --name p_two{' --with-metadata' if with_md else ''}{' --output-file' if out_file else ''}"
+            f, rec, err = run("patchset.py", "extract", {"patchset": "pset.json", "name": "p_two", "with_metadata": with_md, "output_file": out_file})
+            if f is None or rec is None:
+                ctx.unrecognised(rid, f or repo.module(CLI + "patchset.py"), label, err or "?")
+                continue
+            gets = [c for c in rec["calls"] if c[0] == "getitem"]
+            patch_ops = [{"op": "add", "path": "/of/p_two"}]
+            want = {"metadata": {"name": "p_two", "values": ["V"], "description": "PSET_DESCRIPTION", "labels": ["x"]}, "patch": patch_ops} if with_md else patch_ops
+            ok, found = output_ok(rec, out_file, want)
+            if err or len(gets) != 1 or gets[0][2] != ["p_two"] or gets[0][1].attrs.get("spec") != doc("pset.json"):
+                ctx.violated(rid, f, label, err or "the patch looked up is not the one --name asks for, in the patch set of the file given", expected="PatchSet(<PATCHSET file>)[--name]", node=f.node)
+            elif not ok:
+                ctx.violated(rid, f, f"{label}: output", "what is emitted is not the patch's operations" + (" together with its metadata completed by the patch set's" if with_md else ""), expected=_canon(want)[:200], found=found[:200], node=f.node)
+            else:
+                n_ok += 1
+                ctx.holds(rid, f"{CLI}patchset.py::{label}", "the patch --name names; operations" + (" + metadata" if with_md else ""))
+    f, rec, err = run("patchset.py", "verify", {"background_only": "bkg.json", "patchset": "pset.json"})
+    if f is not None and rec is not None:
+        calls = [c for c in rec["calls"] if c[0] == "verify"]
+        if err or len(calls) != 1 or calls[0][1].attrs.get("spec") != doc("pset.json") or ws_of(calls[0][2][0] if calls[0][2] else calls[0][3].get("spec")) != doc("bkg.json"):
+            ctx.violated(rid, f, "pyhf patchset verify", err or "verification is not run on (the patch set of the second file, the workspace of the first)", expected="PatchSet(<PATCHSET file>).verify(Workspace(<BACKGROUND-ONLY file>))", node=f.node)
+        else:
+            n_ok += 1
+            ctx.holds(rid, f"{CLI}patchset.py::pyhf patchset verify", "PatchSet(<PATCHSET file>).verify(Workspace(<BACKGROUND-ONLY file>))")
+    return n_ok
+
+
+# ----------------------------------------------------------------------------------------------------------------
+def check_rootio(ctx, rid, repo):
+    """json2xml and xml2json walked end to end over recording writexml.writexml / readxml.parse and a path model."""
+    from .. import xmlmodel
+    m = repo.module(CLI + "rootio.py")
+    errs = (Undecided, KeyError, TypeError, ValueError, IndexError, AttributeError)
+    n_ok = 0
+
+    def doc(path):
+        return {"__document__": path}
+
+    def pstr(x):
+        return x.attrs["p"] if isinstance(x, Obj) and x.name == "path" else x
+
+    # ---- json2xml
+    f = m.funcs.get("json2xml")
+    if f is not None:
+        ctx.touch(f)
+        for patches in ((), ("p1.json",), ("p1.json", "p2.json")):
+            label = "pyhf json2xml --output-dir OUT --specroot cfg --dataroot dat --resultprefix Fit" + "".join(f" -p {p}" for p in patches)
+            rec = {"writexml": [], "written": []}
+
+            def open_file(a, k):
+                return Obj("stream", {"path": pstr(a[0]), "mode": a[1] if len(a) > 1 else k.get("mode", "r")}, closed=True)
+
+            def write(recv, a, k, rec=rec):
+                if isinstance(recv, Obj) and recv.name == "stream":
+                    rec["written"].append((recv.attrs["path"], recv.attrs["mode"], a[0]))
+                    return None
+                raise NotHandled()
+
+            def read(recv, a, k):
+                if isinstance(recv, Obj) and recv.name == "stream":
+                    return Obj("text", {"path": recv.attrs["path"]}, closed=True)
+                raise NotHandled()
+
+            def jsonpatch_ctor(a, k):
+                return Obj("JsonPatch", {"ops": a[0]}, closed=True)
+
+            def apply(recv, a, k):
+                if isinstance(recv, Obj) and recv.name == "JsonPatch":
+                    return {"__patched__": [a[0], recv.attrs["ops"]]}
+                raise NotHandled()
+
+            def writexml(a, k, rec=rec):
+                kk = dict(k)
+                for nm, v in zip(("spec", "specdir", "data_rootdir", "resultprefix"), a):
+                    kk[nm] = v
+                rec["writexml"].append(kk)
+                return Obj("XMLBYTES", {}, closed=True)
+
+            ext = {"__strict__": True, "open_file": open_file, ".write": write, ".read": read, "load": lambda a, k: doc(a[0].attrs["path"]), "loads": lambda a, k: doc(a[0].attrs["path"]),
+                   "JsonPatch": jsonpatch_ctor, ".apply": apply, "writexml": writexml, "makedirs": lambda a, k: None,
+                   ".decode": lambda recv, a, k: recv if isinstance(recv, Obj) and recv.name == "XMLBYTES" else (_ for _ in ()).throw(NotHandled())}
+            fe = xmlmodel.file_externals({}, {})
+            ext.update({"Path": fe["Path"], ".joinpath": fe[".joinpath"]})
+            w = World(ext, module_env={"click": Obj("click"), "json": Obj("json"), "log": Obj("log"), "os": Obj("os"), "jsonpatch": Obj("jsonpatch")})
+            try:
+                w.call_func(f, [], {"workspace": "ws.json", "output_dir": "OUT", "specroot": "cfg", "dataroot": "dat", "resultprefix": "Fit", "patch": tuple(patches)})
+            except RaisedInFragment as e:
+                ctx.violated(rid, f, label, f"the command raises {e.exc_name}", node=f.node)
+                continue
+            except errs as e:
+                ctx.unrecognised(rid, f, label, f"not interpretable: {type(e).__name__}: {e}")
+                continue
+            want_spec = doc("ws.json")
+            for p_ in patches:
+                want_spec = {"__patched__": [want_spec, doc(p_)]}
+            calls = rec["writexml"]
+            why = None
+            if len(calls) != 1:
+                why = f"writexml is called {len(calls)} times"
+            elif _canon(calls[0].get("spec")) != _canon(want_spec):
+                why = f"the workspace handed to writexml is {_canon(calls[0].get('spec'))[:160]}; the -p/--patch documents must be applied to the WORKSPACE document one after the other, in the order given"
+            elif (pstr(calls[0].get("specdir")), pstr(calls[0].get("data_rootdir")), calls[0].get("resultprefix")) != ("OUT/cfg", "OUT/dat", "Fit"):
+                why = f"writexml gets (specdir, data_rootdir, resultprefix) = {(pstr(calls[0].get('specdir')), pstr(calls[0].get('data_rootdir')), calls[0].get('resultprefix'))}; the options say ('OUT/cfg', 'OUT/dat', 'Fit')"
+            elif [(p_, getattr(c_, "name", None)) for p_, md_, c_ in rec["written"] if str(md_).startswith("w")] != [("OUT/Fit.xml", "XMLBYTES")]:
+                why = f"the top-level XML is written to {[(p_, getattr(c_, 'name', c_)) for p_, md_, c_ in rec['written']]}; it belongs in OUT/Fit.xml"
+            if why:
+                ctx.violated(rid, f, f"{label}: {why.split(' is ')[0].split(' gets ')[0]}", f"`{label}`: {why}", expected="writexml(<patched workspace>, OUT/cfg, OUT/dat, 'Fit') written to OUT/Fit.xml", node=f.node)
+            else:
+                n_ok += 1
+                ctx.holds(rid, f"{CLI}rootio.py::{label}", "writexml(<workspace with the patches applied in order>, OUT/cfg, OUT/dat, Fit) -> OUT/Fit.xml")
+    # ---- xml2json
+    f = m.funcs.get("xml2json")
+    if f is not None:
+        ctx.touch(f)
+        for out_file, flags in ((None, (True, True)), ("ws_out.json", (False, False))):
+            label = f"pyhf xml2json top.xml --basedir BASE -v MOUNT{' --output-file' if out_file else ''}{'' if flags[0] else ' --hide-progress --validation-as-warning'}"
+            rec = {"parse": [], "echo": [], "dumped": []}
+
+            def parse(a, k, rec=rec):
+                kk = dict(k)
+                for nm, v in zip(("configfile", "rootdir", "mounts", "track_progress", "validation_as_error"), a):
+                    kk[nm] = v
+                rec["parse"].append(kk)
+                return Obj("PARSED_WORKSPACE", {}, closed=True)
+
+            ext = {"__strict__": True, "parse": parse, "dumps": lambda a, k: Obj("json_text", {"of": _canon(a[0])}, closed=True), "dump": lambda a, k, rec=rec: rec["dumped"].append((_canon(a[0]), a[1] if len(a) > 1 else None)),
+                   "echo": lambda a, k, rec=rec: rec["echo"].append(a[0] if a else ""), "open": lambda a, k: Obj("outfile", {"path": a[0]}, closed=True)}
+            w = World(ext, module_env={"click": Obj("click"), "json": Obj("json"), "log": Obj("log")})
+            mounts = (("host", "mnt"),)
+            try:
+                w.call_func(f, [], {"entrypoint_xml": "top.xml", "basedir": "BASE", "mount": mounts, "output_file": out_file, "track_progress": flags[0], "validation_as_error": flags[1]})
+            except RaisedInFragment as e:
+                ctx.violated(rid, f, label, f"the command raises {e.exc_name}", node=f.node)
+                continue
+            except errs as e:
+                ctx.unrecognised(rid, f, label, f"not interpretable: {type(e).__name__}: {e}")
+                continue
+            calls = rec["parse"]
+            ok_call = len(calls) == 1 and calls[0].get("configfile") == "top.xml" and calls[0].get("rootdir") == "BASE" and tuple(calls[0].get("mounts") or ()) == mounts and calls[0].get("track_progress") is flags[0] and calls[0].get("validation_as_error") is flags[1]
+            texts = [e.attrs["of"] for e in rec["echo"] if isinstance(e, Obj) and e.name == "json_text"]
+            ok_out = (texts == ["<PARSED_WORKSPACE>"] and not rec["dumped"]) if out_file is None else (len(rec["dumped"]) == 1 and rec["dumped"][0][0] == "<PARSED_WORKSPACE>" and getattr(rec["dumped"][0][1], "attrs", {}).get("path") == out_file and not texts)
+            if not ok_call:
+                ctx.violated(rid, f, f"{label}: library call", "readxml.parse does not receive (the entry-point file, --basedir, mounts=-v, track_progress, validation_as_error) as given", expected="parse('top.xml', 'BASE', mounts=(('host','mnt'),), track_progress=..., validation_as_error=...)", found=str([{k_: _canon(v_) for k_, v_ in c_.items()} for c_ in calls])[:300], node=f.node)
+            elif not ok_out:
+                ctx.violated(rid, f, f"{label}: output", "the parsed workspace is not emitted as JSON on the requested channel", found=str(texts or rec["dumped"])[:200], node=f.node)
+            else:
+                n_ok += 1
+                ctx.holds(rid, f"{CLI}rootio.py::{label}", "parse(entry point, basedir, mounts, flags) -> JSON")
+    return n_ok
